@@ -46,6 +46,17 @@ def grid_twice(g, lats, lons, *rest, state_variables=(), integrated_variables=()
     if len(a) != len(b) or any(x.shape != y.shape or not np.array_equal(x, y, equal_nan=True) for x, y in zip(a, b)):
         raise SecondCallDiffers('gridding the same arrays a second time gives a different result (cells or amounts), e.g. '
                                 + next((f'output {k}: {x.tolist()[:6]} then {y.tolist()[:6]}' for k, (x, y) in enumerate(zip(a, b)) if x.shape != y.shape or not np.array_equal(x, y, equal_nan=True)), 'a different number of outputs'))
+    # GridSegment.tla EntryPoints: the older public method of the same name family grids a trajectory the same way:
+    # a third gridding of the same arrays through it must give the same pieces (cells, order, amounts)
+    legacy = getattr(g, 'cells_touched_by_trajectory_with_state_and_integrated_variables', None)
+    if legacy is not None:
+        third = legacy(lats, lons, *rest, state_variables=state_variables, integrated_variables=integrated_variables)
+        if any(x is None for x in third[:2]):
+            raise SecondCallDiffers('the older entry point cells_touched_by_trajectory_with_state_and_integrated_variables returns nothing for these arrays')
+        c3 = flat(third)
+        if len(a) != len(c3) or any(x.shape != y.shape or not np.allclose(x, y, rtol=1e-12, atol=1e-12, equal_nan=True) for x, y in zip(a, c3)):
+            raise SecondCallDiffers('the older entry point cells_touched_by_trajectory_with_state_and_integrated_variables grids the same arrays differently, e.g. '
+                                    + next((f'output {k}: {x.tolist()[:6]} vs {y.tolist()[:6]}' for k, (x, y) in enumerate(zip(a, c3)) if x.shape != y.shape or not np.allclose(x, y, rtol=1e-12, atol=1e-12, equal_nan=True)), 'a different number of outputs'))
     return first
 
 def gridder_mod():
